@@ -52,4 +52,65 @@ def logSoftmax (x : List (Expr N)) : List (Expr N) :=
   let lse := Expr.prim Prim.log (sum (shifted.map (fun e => Expr.prim Prim.exp e)))
   shifted.map (fun e => Expr.sub e lse)
 
+/-! ### array operations of the spline parameterisation (`_real_to_increasing_on_interval`) -/
+
+/-- `jax.nn.softmax(x)` of a 1-d array (`axis=-1, where=None`).  The installed JAX has `jax_softmax_custom_jvp = False`, so
+`softmax` is `jax/_src/nn/functions.py::_softmax_deprecated`, transcribed here:
+`unnormalized = exp(x - stop_gradient(max x)); unnormalized / sum(unnormalized)` -/
+def softmax (x : List (Expr N)) : List (Expr N) :=
+  let xmax : Expr N := Expr.stopGrad (maxE x)
+  let un := x.map (fun e => Expr.prim Prim.exp (Expr.sub e xmax))
+  un.map (fun e => Expr.div e (sum un))
+
+/-- `a.size` of a 1-d array (a static integer, used as a number) -/
+def sizeE (a : List (Expr N)) : Expr N := Expr.const (Num.ofInt (Int.ofNat a.length))
+/-- `a[i]` for a static index `0 ≤ i` -/
+def getAt (a : List (Expr N)) (i : Nat) : Expr N := a.getD i (Expr.const (Num.ofInt 0))
+/-- `a.at[i].set(v)` for a static index `0 ≤ i` (an out-of-range update is dropped, as in JAX) -/
+def setAt (a : List (Expr N)) (i : Nat) (v : Expr N) : List (Expr N) := a.set i v
+
+def cumsumFrom (acc : Expr N) : List (Expr N) → List (Expr N)
+  | [] => []
+  | e :: es => Expr.add acc e :: cumsumFrom (Expr.add acc e) es
+/-- `jnp.cumsum(a)` of a 1-d array: the prefix sums (a linear map; its transpose, the reversed cumulative sum of the
+cotangents, is what adding up the adjoints of the prefix-sum expressions gives) -/
+def cumsum (a : List (Expr N)) : List (Expr N) := cumsumFrom (Expr.const (Num.ofInt 0)) a
+
+/-- `jnp.pad(a, pad_width=1, constant_values=(lo, hi))` of a 1-d array -/
+def pad1 (a : List (Expr N)) (lo hi : Expr N) : List (Expr N) := lo :: (a ++ [hi])
+
 end Ad.Vec
+
+/-! ### square matrices of expressions (`TriangularAffine`) -/
+namespace Ad.Mat
+variable {N : Type} [Num N]
+
+/-- entry `(i, j)` (the constant 0 outside the shape) -/
+def entry (m : List (List (Expr N))) (i j : Nat) : Expr N := (m.getD i []).getD j (Expr.const (Num.ofInt 0))
+def ofFn (n : Nat) (f : Nat → Nat → Expr N) : List (List (Expr N)) := (List.range n).map (fun i => (List.range n).map (fun j => f i j))
+/-- the `n × n` matrix stored row-major in vector parameter `vec` -/
+def ofVec (vec n : Nat) : List (List (Expr N)) := ofFn n (fun i j => Expr.get vec (fun _ => Int.ofNat (i * n + j)))
+
+/-- `jnp.diag(d)` of a 1-d array: the diagonal matrix (zeros are constants) -/
+def diagM (d : List (Expr N)) : List (List (Expr N)) := ofFn d.length (fun i j => if i = j then Vec.getAt d i else Expr.const (Num.ofInt 0))
+/-- `jnp.diag(m)` of a square matrix -/
+def diag (m : List (List (Expr N))) : List (Expr N) := (List.range m.length).map (fun i => entry m i i)
+/-- `jnp.tril(m, k)`: `where(j ≤ i + k, m, 0)` with a static mask -/
+def tril (m : List (List (Expr N))) (k : Int) : List (List (Expr N)) :=
+  ofFn m.length (fun i j => if (Int.ofNat j) ≤ (Int.ofNat i) + k then entry m i j else Expr.const (Num.ofInt 0))
+def add (a b : List (List (Expr N))) : List (List (Expr N)) := ofFn a.length (fun i j => Expr.add (entry a i j) (entry b i j))
+/-- `m @ x` -/
+def mulVec (m : List (List (Expr N))) (x : List (Expr N)) : List (Expr N) := m.map (fun row => Vec.dot row x)
+
+def solveLowerGo (m : List (List (Expr N))) (b : List (Expr N)) : Nat → List (Expr N) → List (Expr N)
+  | 0, acc => acc
+  | k + 1, acc =>
+      let i := acc.length
+      solveLowerGo m b k (acc ++ [Expr.div (Expr.sub (Vec.getAt b i) (Vec.dot ((List.range i).map (fun j => entry m i j)) acc)) (entry m i i)])
+/-- `jax.scipy.linalg.solve_triangular(m, b, lower=True)` by its definition, forward substitution:
+`x_i = (b_i - Σ_{j<i} m_ij x_j) / m_ii` (entries above the diagonal are not read).  JAX's transpose rule is another triangular
+solve with the same diagonal; the two agree in exact arithmetic and the correspondence checks them numerically. -/
+def solveLower (m : List (List (Expr N))) (b : List (Expr N)) : List (Expr N) := solveLowerGo m b m.length []
+
+end Ad.Mat
+
